@@ -317,6 +317,62 @@ def run(ctx):
             break
     ctx.coverage['distinct_nontrivial'] = len(set((v, repr(o)) for v, o in histories))
 
+    # ---- 2b. stores of a row object the grid already holds (aliases): the caller edited the row in place (a store into a
+    # caller-owned object, which the grid cannot see) and then stores THAT object through the grid - this store is judged like any other
+    def alias_store(g, how):
+        row = g[0]
+        if how == 'setitem-same':
+            g[0] = row
+        elif how == 'setitem-other':
+            g[1] = row
+        elif how == 'swap':
+            g[0], g[1] = g[1], g[0]
+        elif how == 'reverse':
+            g.reverse()
+        elif how == 'insert':
+            g.insert(1, row)
+        elif how == 'append':
+            g.append(row)
+        elif how == 'extend':
+            g.extend([row])
+        else:
+            g += [row]
+    for ver in VERSIONS + MORE_VERSIONS[:4]:
+        for k in KIND_NAMES:
+            for how in ('setitem-same', 'setitem-other', 'swap', 'reverse', 'insert', 'append', 'extend', 'iadd'):
+                g = h.Grid(version=ver) if ver is not None else h.Grid()
+                g.column['a'] = {}
+                g.append({'a': 1.0})
+                g.append({'a': 2.0})
+                v = sample_of_kind(h, k)
+                g[0]['b'] = v                     # in place, behind the grid's back
+                ctx.coverage['evaluations'] += 1
+                ctx.count('alias-store:' + how)
+                exc = None
+                try:
+                    alias_store(g, how)
+                except Exception as e:  # noqa
+                    exc = e
+                rep = {'version': ver, 'kind': k, 'how': how,
+                       'python': "g=Grid(version=%r); g.append({'a':1.0}); g.append({'a':2.0}); g[0]['b']=<%s>; then %s with the row object g[0]" % (ver, k, how)}
+                if not is_v3(h, v):
+                    if exc is not None:
+                        ctx.violation('impl-counterexample', 'storing a row the grid already holds (%s) raised %s' % (how, type(exc).__name__), rep)
+                        return
+                    continue
+                if ver is not None and pre3(ver):
+                    if not isinstance(exc, ValueError):
+                        ctx.violation('impl-counterexample', 'a grid with the explicit version %s accepted a row holding a %s through %s of a row object it already holds (%s)'
+                                      % (ver, k, how, type(exc).__name__ if exc else 'no exception'), rep)
+                        return
+                elif exc is not None:
+                    ctx.violation('impl-counterexample', 'a grid of version %s refused a row holding a %s (%s, %s)' % (ver, k, how, type(exc).__name__), rep)
+                    return
+                elif ver is None and str(g.version) != '3.0':
+                    ctx.violation('impl-counterexample', 'an unversioned grid reports %s after a row holding a %s was stored through %s (a row object it already holds)'
+                                  % (g.version, k, how), rep)
+                    return
+
     # ---- 3. what the histories built can be written (both formats) and read back, and is not pre-3.0 with 3.0-only data
     for (ver, ops), g in list(zip(histories, finals))[:(12000 if thorough else 600)]:
         if not len(g.column):
